@@ -165,6 +165,18 @@ structure BodySt where
   inWord : Bool := false
   deriving Repr
 
+/-- the parameter-name test at the top of the loop: a name starts at a word start, and when
+    the word ends it is replaced by (0x01, index) if it is a parameter -/
+def nameStep (params : List (List Ch)) (st : BodySt) (c : Ch) : List Ch × Option Nat :=
+  match st.nameTest with
+  | none =>
+    (st.mac, if (isLetter c || c = ch '_') && !st.inWord then some st.mac.length else none)
+  | some nt =>
+    if !(isLetter c || isDigit c || c = ch '_') then
+      (if paramIndex params (st.mac.drop nt) ≠ 0 then
+         st.mac.take nt ++ [1, (paramIndex params (st.mac.drop nt) : Int)] else st.mac, none)
+    else (st.mac, some nt)
+
 inductive BodyRes where
   | ok (text : List Ch)     -- the text handed to macros_strip / macros_append
   | err                     -- an error was printed, -1 returned
@@ -178,17 +190,8 @@ def bodyLoop (isDefine : Bool) (params : List (List Ch)) : Nat → BodySt → Pr
     .get fun c0 =>
       let c := if c0 = 9 then ch ' ' else c0
       let isWord := isLetter c || isDigit c || c = ch '_'
-      -- a parameter name ends here?
-      let (mac, nameTest) :=
-        match st.nameTest with
-        | none =>
-          (st.mac, if (isLetter c || c = ch '_') && !st.inWord then some st.mac.length else none)
-        | some nt =>
-          if !isWord then
-            let idx := paramIndex params (st.mac.drop nt)
-            (if idx ≠ 0 then st.mac.take nt ++ [1, (idx : Int)] else st.mac, none)
-          else (st.mac, some nt)
-      let st1 : BodySt := { mac := mac, nameTest := nameTest, inWord := isWord }
+      let mac := (nameStep params st c).1
+      let st1 : BodySt := { mac := mac, nameTest := (nameStep params st c).2, inWord := isWord }
       -- the rest of the pass, with the character possibly replaced by the end of a comment line
       let rest (mac : List Ch) (c : Ch) : Prog BodyRes :=
         let st2 : BodySt := { st1 with mac := mac }
